@@ -2,6 +2,7 @@
 from ..paths import PathEnumerator
 from ..guards import fv
 from ..terms import TermBuilder, fmt, mk, const, subterms, linear
+from ..terms import callee_is as _nm
 from ..guards import atomic_facts
 from .common import SELF, self_field
 
@@ -162,7 +163,7 @@ def run(ctx):
         else:
             yield t_
     rq = tb.return_term()
-    stray = [a_ for a_ in _alts(rq) if not ((a_[0] == "call" and a_[1].endswith("interpolate")) or (a_[0] == "const" and a_[1] != a_[1]) or a_ == const(float("nan")) or fmt(a_) == "nan")]
+    stray = [a_ for a_ in _alts(rq) if not ((a_[0] == "call" and _nm(a_[1], "interpolate")) or (a_[0] == "const" and a_[1] != a_[1]) or a_ == const(float("nan")) or fmt(a_) == "nan")]
     ctx.check(not stray, "R15-knots", q.key + ":returns", q, "quantile returns only interpolated values (or NaN when empty)",
               "quantile returns %s without interpolating (%d such value(s)): every q of that segment is mapped to one point" % (fmt(stray[0])[:120] if stray else "", len(stray)))
     cumv = None
@@ -404,7 +405,7 @@ def read_rules(ctx):
         ctx.check(okm, "R15-merge-before-read", mg.key + ":idempotent", mg, "merge returns without writing when the backlog is empty", "merge modifies the digest even when the backlog is empty (repeated reads may differ)")
 
     # ---- validation -------------------------------------------------------------------------------------------------
-    for name, want in (("quantile", lambda fs, pn: any(c[0] == "call" and c[1].endswith("RangeInclusive::contains") and tr for c, tr in fs)),
+    for name, want in (("quantile", lambda fs, pn: any(c[0] == "call" and _nm(c[1], "RangeInclusive::contains") and tr for c, tr in fs)),
                        ("cdf", lambda fs, pn: any(c[0] == "op" and c[1] == "is_nan" and not tr for c, tr in fs))):
         f = ctx.anchor(TD + "::" + name)
         if f is None:
